@@ -146,8 +146,16 @@ Definition fcase_expect (c : fcase) : N :=
     (* net/http's server frames a body of unknown length as chunked for an HTTP/1.1 client and the handler aborts
        (panic(http.ErrAbortHandler)) when copying the body fails: the terminating chunk is never written *)
     (if f_framing c =? 3 then (if f_rst c then 2 else 1) else if f_k c =? f_replylen c then 1 else 2)
+  else if f_reject c then
+    (* Reject.v: the rejection's body (positive Content-Length) is relayed whole when it could be read, else the status
+       and header are relayed with an empty body, honestly announced *)
+    match reject_body reject_reads_body_only_when_length_positive reject_body_read_is_bounded
+                      (Z.of_N (f_replylen c - f_headlen c)) (if f_k c =? f_replylen c then RdAll (f_body c) else RdFail) with
+    | Some [] => 4
+    | Some _ => 1
+    | None => 5
+    end
   else if (f_k c =? f_replylen c) && negb ((f_framing c =? 3) && f_rst c && negb (f_tlscut c)) then 1
-  else if f_reject c then 4   (* OnProxyConnectResponse could not read the rejection's body: status and header relayed, body dropped *)
   else if f_framing c =? 3 then
     (* a close-delimited origin reply.  An orderly end of the origin's connection IS the end of the body.
        Tables.close_delimited_rechunked: an HTTP/1.1 client gets the body in chunks, so an upstream failure leaves it
